@@ -65,7 +65,8 @@ class Fn:
 
 class Unit:
     def __init__(self, name, prop, prove, use=(), types=(), spec='', preludes=('fax_l0', 'stdspec'), level='L0',
-                 broadcast=('l0',), consts=(), extra_modules='', notes='', rlimit=30, raw_items=(), type_spec='', traits=(), nra=(), also=()):
+                 broadcast=('l0',), consts=(), extra_modules='', notes='', rlimit=30, raw_items=(), type_spec='', traits=(), nra=(), also=(), fingerprints=()):
+        self.fingerprints = list(fingerprints)   # (fn path, expected whitespace-normalised body): definitions inlined by a rewrite rule
         self.also = list(also)   # names of units whose functions lie on the call path behind an assumed contract
         self.nra = list(nra)
         self.traits = list(traits)
@@ -558,6 +559,7 @@ class Gen:
         parts.append('use std::convert::{From, Into, TryInto, TryFrom};')
         parts.append('use std::mem::swap;')
         parts.append('use std::cmp;')
+        parts.append('use std::iter::{FromIterator, IntoIterator};')
         for pre in unit.preludes:
             parts.append('use crate::%s::*;' % pre.split('_')[0] if pre != 'alea' else 'use crate::alea;')
         parts.append('/*USE-LITS*/')
@@ -571,6 +573,14 @@ class Gen:
             bc.append('ax_vector_refl')
         if bc:
             parts.append('/*BROADCAST:%s*/' % ','.join(bc))
+        for fpath, expect in unit.fingerprints:
+            try:
+                fit_, _ = self.crate.find(fpath)
+            except KeyError as e:
+                raise AnchorError('lost anchor: %s' % e)
+            got = ' '.join(self.crate.src[fit_.body_open:fit_.body_close + 1].split())
+            if got != ' '.join(expect.split()):
+                raise AnchorError('%s: body %r differs from the definition a rewrite rule inlines (%r)' % (fpath, got, expect))
         for tpath, ttext in unit.traits:
             self.check_trait(tpath, ttext)
             parts.append('//@trait %s (annotated with specification members; fn signatures checked against the real trait)' % tpath)
